@@ -601,7 +601,7 @@ SUBCHECKS = [
         "add_measures",
         oracle_add_measures,
         strategy=lambda tier: G.part_for_measures(tier),
-        budget={"quick": 80, "thorough": 3000},
+        budget={"quick": 200, "thorough": 3000},
         rule="parts with 1-3 time signatures on/off the bar grid, any divisions (incl. a division change), 0-6 existing measures anywhere (adjacent, gaps, around a signature change), notes/rests at arbitrary integer positions, notated/musical beats; measures after add_measures compared with an interval model (non-overlap, coverage of [first,last), existing untouched, bar length by signature in force unless cut by change/existing/end, numbers 1..n); non-trivial = existing measures with at least one gap to fill",
         known={
             "bar-end-truncated": _known_truncated,
@@ -614,7 +614,7 @@ SUBCHECKS = [
         "pipeline",
         oracle_pipeline,
         strategy=lambda tier: G.part_for_pipeline(tier),
-        budget={"quick": 80, "thorough": 3000},
+        budget={"quick": 200, "thorough": 3000},
         rule="same part generator plus tie chains, explicit symbolic durations, grace notes, dangling slurs/tuplets; tie_notes / find_tuplets / fill_rests(measurewise|global) / sanitize_part alone and in importer order after add_measures; after every step: note-array multiset (onset_div, duration_div, pitch, voice, id) unchanged, pitched notes within one measure once tied, tie chains contiguous and uniform, stored symbolic durations exact (Fractions); non-trivial = a note crossing >=2 bar lines, or a note left without a single notated value, or a gap between existing measures",
         known={
             "fill-rests-empty-measure": _known_fill_rests_empty,
@@ -637,7 +637,7 @@ SUBCHECKS = [
         "tie_split",
         oracle_tie_split,
         strategy=strat_tie_split,
-        budget={"quick": 60, "thorough": 1500},
+        budget={"quick": 150, "thorough": 1500},
         rule="find_tie_split(start, start+dur, divs, max_splits 0..3) and order_splits called directly: pieces contiguous from start to end, at most max_splits+1, each with a stored symbolic duration that is exact; a single tabulated value is returned unsplit; order_splits equals the documented metrical ordering of all grid points strictly inside; non-trivial = solution with >= 2 pieces",
         known={"tuplet-guess-ceil": _known_tuplet_guess},
     ),
